@@ -681,3 +681,19 @@ Proof.
   intros. eapply Forall_impl; [|apply env_fresh_all; assumption].
   intros o Ho. unfold obs_ok in Ho. rewrite Ho. discriminate.
 Qed.
+
+(* ------------------------------------------------------------------ eigen-solver dispatch *)
+From Coq Require Import String.
+(* a branch asks for the algebraically smallest eigenpair(s) *)
+Definition requests_smallest (s : selector) : bool :=
+  match s with
+  | SelDavidson => true                               (* lowest Ritz values of the subspace matrix (translator checks `e = w[:nroots]`, no `pick`) *)
+  | SelWhich w => String.eqb w "SA"%string            (* ARPACK / PRIMME: Smallest Algebraic *)
+  | SelEighIndex i => Nat.eqb i 0                     (* dense eigh returns the spectrum ascending *)
+  end.
+
+Theorem solvers_request_smallest_all :
+  Forall (fun x => requests_smallest (snd x) = true) tree_solvers /\
+  Forall (fun x => requests_smallest (snd x) = true) chain_iter_solvers /\
+  requests_smallest chain_direct_solver = true.
+Proof. repeat split; repeat constructor. Qed.
